@@ -174,6 +174,7 @@ static pthread_barrier_t start_bar;
 static int phase;       /* 0: workload, 1: mutex, 2: publish */
 
 static var TH[MAXT], IX[MAXT];
+static var HEAPARGS[MAXT];            /* argument collections that live on the caller's heap (call_with hands them over as they are) */
 static var TH_at(int i) { return TH[i]; }
 static volatile int run_done[MAXT];      /* set by the worker as its last action (atomic: it is what join is checked against) */
 
@@ -204,6 +205,7 @@ static var thread_main(var args) {
     usleep((useconds_t)vh_below(&r, 2000));
     for (int i = 0; i < 64; i++) { out->published[i] = idx * 1000 + i; }
     /* a result built as a root object: it is the worker's until somebody deletes it, the end of the thread does not */
+    if (type_of(args) == Array) { for (int k = 1; k < (int)len(args); k++) { set(args, $I(k), $I(-1)); } }     /* its own copy: the caller never sees this */
     out->root_id = next_probe_id();
     out->root_result = new_root(PNode, $I(out->root_id));
     for (int i = 0; i < 300; i++) { var g = new(PNode, $I(next_probe_id())); g = NULL; }
@@ -219,7 +221,12 @@ static void run_threads(int n, int ph) {
   phase = ph;
   if (ph != 9) { pthread_barrier_init(&start_bar, NULL, (unsigned)n); }
   for (int i = 0; i < n; i++) { run_done[i] = 0; }
-  for (int i = 0; i < n; i++) { call(TH[i], IX[i]); }
+  for (int i = 0; i < n; i++) {
+    /* the publish phase starts every other thread with a collection the caller keeps on its own heap: the thread
+       works on its own copy of it, the caller's stays alive, unchanged and the caller's to delete */
+    if (ph == 2 && i % 2 == 0 && HEAPARGS[i] != NULL) { call_with(TH[i], HEAPARGS[i]); }
+    else { call(TH[i], IX[i]); }
+  }
   if (ph == 2) {
     /* join publishes: read what each worker wrote, immediately after join, in reverse order */
     for (int i = n - 1; i >= 0; i--) {
@@ -240,6 +247,14 @@ static void run_threads(int n, int ph) {
         if (mo_state[rid] != MO_DESTRUCTED) { vh_violation("C13:join:root-object-of-the-thread-finalised-when-it-ended", "del_root of the root result of thread %d left it in ledger state %d", i, mo_state[rid]); }
       }
       vh_count("root_results_received_after_join");
+      if (i % 2 == 0 && HEAPARGS[i] != NULL) {
+        var ha = HEAPARGS[i];
+        vh_evals(2);
+        int ok = type_of(ha) == Array && len(ha) == 4 && (i % 4 != 0 || mem(current(GC), ha));
+        for (int k = 0; ok && k < 4; k++) { if (c_int(get(ha, $I(k))) != (k == 0 ? i : 7000 + i * 10 + k)) { ok = 0; } }
+        if (!ok) { vh_violation("C13:isolation:argument-collection-of-the-caller-finalised-or-changed-by-the-thread", "the heap Array thread %d was started with (call_with) is no longer the caller's intact object after join", i); HEAPARGS[i] = NULL; }
+        vh_count("threads_started_with_a_heap_argument_collection");
+      }
     }
   } else {
     for (int i = 0; i < n; i++) { join_checked(i); }
@@ -303,6 +318,8 @@ static void one_trial(vh_rng* r, int nthreads) {
   for (int i = 0; i < nthreads; i++) { SEEDS[i] = vh_next(r); }
   var fn = $(Function, thread_main);           /* outlives every thread: all are joined before this function returns */
   for (int i = 0; i < nthreads; i++) { IX[i] = new_raw(Int, $I(i)); TH[i] = new_raw(Thread, fn); }
+  for (int i = 0; i < nthreads; i++) { HEAPARGS[i] = (i % 4 == 0) ? (var)new_root(Array, Int, $I(i), $I(7000 + i * 10 + 1), $I(7000 + i * 10 + 2), $I(7000 + i * 10 + 3))
+                                                   : (var)new_raw(Array, Int, $I(i), $I(7000 + i * 10 + 1), $I(7000 + i * 10 + 2), $I(7000 + i * 10 + 3)); }
   /* solo reference runs: one Cello thread at a time */
   memset(SOLO, 0, sizeof SOLO);
   for (int i = 0; i < nthreads; i++) {
@@ -362,6 +379,7 @@ static void one_trial(vh_rng* r, int nthreads) {
   vh_count_n("join_publish_threads", (uint64_t)nthreads);
   vh_count_n("thread_objects_reused_for_4_runs", (uint64_t)nthreads);
   for (int i = 0; i < nthreads; i++) { del_raw(TH[i]); del_raw(IX[i]); }
+  for (int i = 0; i < nthreads; i++) { if (HEAPARGS[i]) { if (i % 4 == 0) { del_root(HEAPARGS[i]); } else { del_raw(HEAPARGS[i]); } HEAPARGS[i] = NULL; } }
   /* the observed interleaving is part of the case's identity */
   vh_op("threads=%d ops=%d sections=%d acquisition-order=%016" PRIx64 " handovers=%ld", nthreads, wl_ops, sections_per_thread, oh, handovers);
   if (handovers > 0 && bad == 0) { vh_nontrivial(); }
